@@ -39,6 +39,9 @@ def build(t0, t1, dp, l02, l102, l12, att, cs=0):
             mb.add_link(m, lcf, 'L', 'ps', [assets[1]], 'os', [assets[2]])
         else:
             mb.add_link(m, lcf, 'L', 'ps', [assets[0]], 'os', [assets[1]])
+    if types[1] == 'O' and l12:
+        mb.add_link(m, lcf, 'Chain', 'prv', [assets[1]], 'nxt', [assets[2]])
+        mb.add_link(m, lcf, 'Chain', 'prv', [assets[2]], 'nxt', [assets[2]])
     if att:
         t = AttackerAttachment(name='att')
         m.add_attacker(t)
